@@ -23,8 +23,10 @@ enum { EV_DTOR = 1, EV_DROP = 2 };
 struct Obj : public tlx::ReferenceCounter {
     int id;
     int payload;
+    // a handle variable that lives inside a managed object (list node style: head = head->next)
+    tlx::CountingPtr<Obj> next;
     Obj() : id(int(sim::rt_cell_add(CELL_NEXT_ID, 1))), payload(7000 + id) { sim::rt_cell_set(uint32_t(CELL_BASE + id), 1); }
-    Obj(const Obj& o) : tlx::ReferenceCounter(o), id(int(sim::rt_cell_add(CELL_NEXT_ID, 1))), payload(o.payload) {
+    Obj(const Obj& o) : tlx::ReferenceCounter(o), id(int(sim::rt_cell_add(CELL_NEXT_ID, 1))), payload(o.payload), next(o.next) {
         sim::rt_cell_set(uint32_t(CELL_BASE + id), 1);
     }
     virtual ~Obj() {
@@ -42,7 +44,8 @@ using NPtr = tlx::CountingPtrNoDelete<Obj>;
 
 enum {
     H_NEW = 0, H_NEWD, H_COPYCTOR, H_MOVECTOR, H_COPYASSIGN, H_MOVEASSIGN, H_CONVCOPYCTOR, H_CONVMOVECTOR,
-    H_CONVCOPYASSIGN, H_CONVMOVEASSIGN, H_RESET, H_SWAP, H_UNIFY, H_DROP, H_ASSIGN_NULL, H_DRESET, H_DCOPY, H_N
+    H_CONVCOPYASSIGN, H_CONVMOVEASSIGN, H_RESET, H_SWAP, H_UNIFY, H_DROP, H_ASSIGN_NULL, H_DRESET, H_DCOPY,
+    H_LINK, H_ADVANCE, H_ADVANCE_MOVE, H_UNLINK, H_PUSH_FRONT, H_N
 };
 enum { T_COPY_BASE = 0, T_COPY_OWN, T_MOVE_OWN, T_RESET, T_DROP, T_COPYCTOR, T_READ, T_UNIFY, T_SWAP, T_N };
 
@@ -51,8 +54,14 @@ void generate(Rng& r, Workload& w, int tier) {
     if (mode == 0) {
         w.cfg = {0, r.chance(1, 4) ? 1 : 0};
         int n = int(r.range(1, tier ? 100 : 30));
-        for (int i = 0; i < n; ++i)
-            w.ops.push_back({int64_t(r.below(H_N)), int64_t(r.below(5)), int64_t(r.below(5))});
+        // some histories work mostly on one or two handle variables (chains built and walked through one head)
+        const uint64_t span = r.chance(1, 3) ? 2 : 5;
+        const bool listy = r.chance(1, 3);
+        static const int list_ops[] = {H_PUSH_FRONT, H_PUSH_FRONT, H_ADVANCE, H_ADVANCE_MOVE, H_LINK, H_COPYCTOR, H_DROP, H_UNLINK, H_NEW};
+        for (int i = 0; i < n; ++i) {
+            int64_t code = (listy && r.chance(2, 3)) ? list_ops[r.below(sizeof list_ops / sizeof list_ops[0])] : int64_t(r.below(H_N));
+            w.ops.push_back({code, int64_t(r.below(span)), int64_t(r.below(span))});
+        }
     } else {
         int nt = int(r.range(2, 3));
         // cfg[4]: the threads start without a handle of their own and first copy the controller's single
@@ -98,9 +107,18 @@ struct History {
         // first pass: find raw pointers only (use_count is read after liveness is established)
         for (int i = 0; i < NS; ++i) if (s[i] && s[i]->get()) see(s[i]->get(), 0, false, "h", i);
         for (int k = 0; k < ND; ++k) if (d[k] && d[k]->get()) see(d[k]->get(), 0, false, "d", k);
+        // handles that live inside objects which are alive (by the ledger) are handles like any other
+        for (int id = 1; id <= last_id; ++id)
+            if (size_t(id) < alive_ptr.size() && alive_ptr[size_t(id)] && sim::rt_cell_get(uint32_t(CELL_BASE + id)) == 1 &&
+                alive_ptr[size_t(id)]->next.get())
+                see(alive_ptr[size_t(id)]->next.get(), 0, false, "next-handle of object ", id);
         if (!res.ok) return;
         for (int i = 0; i < NS; ++i) if (s[i] && s[i]->get()) check_count(*s[i], cnt, after);
         for (int k = 0; k < ND; ++k) if (d[k] && d[k]->get()) check_count(*d[k], cnt, after);
+        for (int id = 1; id <= last_id; ++id)
+            if (size_t(id) < alive_ptr.size() && alive_ptr[size_t(id)] && sim::rt_cell_get(uint32_t(CELL_BASE + id)) == 1 &&
+                alive_ptr[size_t(id)]->next.get())
+                check_count(alive_ptr[size_t(id)]->next, cnt, after);
         for (int id = 1; id <= last_id; ++id) {
             bool alive = sim::rt_cell_get(uint32_t(CELL_BASE + id)) == 1;
             if (alive && cnt[size_t(id)] == 0)
@@ -120,6 +138,11 @@ struct History {
     std::vector<const Obj*> alive_ptr{nullptr};
     std::vector<size_t> uses; std::vector<bool> uniqs;
     Obj* mk() { Obj* o = new Obj; reg(o); return o; }
+    // would a next-handle from `from` to `to` close a cycle (which reference counting cannot free)?
+    static bool reaches(const Obj* to, const Obj* from) {
+        for (const Obj* p = to; p; p = p->next.get()) if (p == from) return true;
+        return false;
+    }
     void reg(const Obj* o) { if (alive_ptr.size() <= size_t(o->id)) alive_ptr.resize(size_t(o->id) + 1, nullptr); alive_ptr[size_t(o->id)] = o; }
 };
 
@@ -127,7 +150,7 @@ void run_history(const Workload& w, Result& res) {
     History h(res);
     static const char* names[] = {"new", "new_derived", "copy_ctor", "move_ctor", "copy_assign", "move_assign", "conv_copy_ctor",
                                   "conv_move_ctor", "conv_copy_assign", "conv_move_assign", "reset", "swap", "unify", "drop",
-                                  "assign_null", "dreset", "dcopy"};
+                                  "assign_null", "dreset", "dcopy", "link", "advance", "advance_move", "unlink", "push_front"};
     int step = 0;
     for (auto& op : w.ops) {
         if (op.empty()) continue;
@@ -177,6 +200,34 @@ void run_history(const Workload& w, Result& res) {
         case H_ASSIGN_NULL: h.slot(i) = Ptr(nullptr); expect = nullptr; has_expect = true; break;
         case H_DRESET: h.dslot(k).reset(); break;
         case H_DCOPY: h.dslot(k) = h.dslot(1 - k); break;
+        case H_LINK:
+            // object(i).next = handle j (copy assignment into a handle inside an object); never a cycle
+            if (h.slot(i).get() && !History::reaches(h.slot(j).get(), h.slot(i).get())) {
+                h.slot(i)->next = h.slot(j);
+                res.probe("inner_handle_linked");
+            }
+            break;
+        case H_ADVANCE:
+            // head = head->next: the source handle lives inside the object the target may be the last owner of
+            if (h.slot(i).get()) {
+                expect = h.slot(i)->next.get(); has_expect = true;
+                if (expect && h.slot(i).unique() && expect->unique()) res.probe("advance_from_sole_owner_to_solely_owned");
+                h.slot(i) = h.slot(i)->next;
+            }
+            break;
+        case H_ADVANCE_MOVE:
+            if (h.slot(i).get()) {
+                expect = h.slot(i)->next.get(); has_expect = true;
+                h.slot(i) = std::move(h.slot(i)->next);
+            }
+            break;
+        case H_UNLINK: if (h.slot(i).get()) h.slot(i)->next.reset(); break;
+        case H_PUSH_FRONT: {
+            // list style: a new node takes over the handle's object as its successor and becomes the head
+            Obj* n = h.mk();
+            n->next = h.slot(i);
+            h.slot(i) = Ptr(n);
+            break; }
         }
         // which object the target handle ends up with is not part of the statement (it fixes counts and
         // destruction): counted, not judged
